@@ -80,6 +80,8 @@ pub struct CmdD {
     pub sub: Option<SubD>,
     pub tuple: bool,
     pub tokens: Vec<String>,
+    /// complete argument lines for commands with three or more fields (gen.py `long_lines_for`)
+    pub long_lines: Vec<Vec<String>>,
 }
 
 #[derive(Clone, Debug)]
@@ -157,6 +159,11 @@ pub fn parse_decls(json: &str) -> Decls {
                         },
                         tuple: c["tuple"].as_bool().unwrap_or(false),
                         tokens: c["tokens"].as_array().unwrap().iter().map(s).collect(),
+                        long_lines: c
+                            .get("long_lines")
+                            .and_then(|l| l.as_array())
+                            .map(|l| l.iter().map(|x| x.as_array().map(|a| a.iter().map(s).collect()).unwrap_or_default()).collect())
+                            .unwrap_or_default(),
                     });
                 }
                 DeclD::Command { id: id.clone(), help_title: s(&d["help_title"]), commands }
@@ -227,7 +234,7 @@ pub fn interpret(decls: &Decls, id: &str, tokens: &[String]) -> (Expect, bool) {
             let Some(i) = names.iter().position(|n| *n == tokens[0]) else {
                 return (Expect::Err(PErr::UnknownCommand), false);
             };
-            let cmd = CmdD { ident: format!("V{}", i), name: names[i].clone(), doc: None, fields: vec![], sub: None, tuple: false, tokens: vec![] };
+            let cmd = CmdD { ident: format!("V{}", i), name: names[i].clone(), doc: None, fields: vec![], sub: None, tuple: false, tokens: vec![], long_lines: vec![] };
             interpret_cmd(decls, &cmd, &tokens[1..])
         }
         Some(DeclD::Group { members, .. }) => {
@@ -259,7 +266,7 @@ pub fn interpret(decls: &Decls, id: &str, tokens: &[String]) -> (Expect, bool) {
         Some(DeclD::NameGroup { members, .. }) => {
             for (mi, (names, _)) in members.iter().enumerate() {
                 if let Some(i) = names.iter().position(|n| *n == tokens[0]) {
-                    let cmd = CmdD { ident: format!("V{}", i), name: names[i].clone(), doc: None, fields: vec![], sub: None, tuple: false, tokens: vec![] };
+                    let cmd = CmdD { ident: format!("V{}", i), name: names[i].clone(), doc: None, fields: vec![], sub: None, tuple: false, tokens: vec![], long_lines: vec![] };
                     let (r, _) = interpret_cmd(decls, &cmd, &tokens[1..]);
                     let m = if mi == 0 { "A" } else { "B" };
                     return (
